@@ -388,6 +388,7 @@ func init() {
 		for _, K := range []int{2, 3} {
 			add("ReadAt", true, K, 8, 6, 1)
 			add("ReadAt", true, K, 7, 7, 0)
+			add("ReadAt", true, K, 3, 8, 0) // reaches two whole chunks past the end: three chunks report an end of file
 			add("WriteTo", true, K, 7, 0, 0)
 			add("WriteTo", true, K, 6, 0, 1)
 			add("WriteAt", true, K, 3, 6, 1)
@@ -402,6 +403,7 @@ func init() {
 			}
 		}
 		add("Read", true, 2, 7, 5, 1)
+		add("Read", true, 3, 3, 8, 0)
 		add("Write", true, 2, 0, 5, 2)
 		return runMulti(c, "C01", c.Arg("strategy", "db"), c.ArgInt("bound", 2), specs, xferScenario)
 	})
